@@ -114,4 +114,11 @@ def handleFill : List String → Option String
     pure s!"{showFill model}\t{b2s verdict}"
   | _ => none
 
+/-- `e2efill cmdline kind opts req rnd aux obs` (harness/cmd/sxdiff/e2efill.go): a frame captured on the wire from a run
+    of the real binary, with what its command line denotes; judged exactly like a `fill` case (byte-exact model and the
+    independent readers of `Spec/Fill.lean`).  `MISSING` / `EXTRA …` / `FAIL …` are not frames: verdict 0. -/
+def handleE2EFill : List String → Option String
+  | _cmdline :: rest => handleFill rest
+  | _ => none
+
 end Driver
